@@ -421,6 +421,28 @@ class Flow:
         return target not in self.reach_correlated(cut_edges=list(edges))
 
     # ------------------------------------------------------------ provenance
+    exclude_blocks = frozenset()
+
+    def restricted(self, blocks):
+        """context manager: origins() ignores definitions located in `blocks` - the view of the values on the executions that
+        cannot have passed through those blocks (e.g. everything guarded by the other edge of a comparison)"""
+        fl = self
+
+        class _R:
+            def __enter__(self_):
+                self_.saved = fl.exclude_blocks
+                fl.exclude_blocks = frozenset(blocks) | self_.saved
+                return fl
+
+            def __exit__(self_, *a):
+                fl.exclude_blocks = self_.saved
+                return False
+        return _R()
+
+    def only_through(self, edges):
+        """blocks that can be reached only through one of `edges`"""
+        return {bi for bi in self.cfg.reachable() if self.cfg.edges_guard(edges, bi)}
+
     def origins(self, op, path=(), depth=0, interproc=None, _seen=None, mut_calls=False):
         """Set of Origin for an operand / place dict / local index."""
         if _seen is None:
@@ -473,6 +495,8 @@ class Flow:
         if not ds and not (1 <= l <= b.argc):
             out.add(Origin('unknown', l, path, None))
         for (bb, idx, kind, data, dproj) in ds:
+            if bb in self.exclude_blocks:
+                continue        # edge-specialised view (see `restricted`): this definition cannot have run
             # definition through a projection (x.f = v): only relevant if the path starts with f
             dpath = []
             for e in dproj:
